@@ -15,8 +15,8 @@ import json, os, re, subprocess, sys, glob, shutil, time
 
 env = dict(os.environ, GOFLAGS="-mod=mod", GOPROXY="off", GOSUMDB="off", GOTOOLCHAIN="local")
 VERIF = "/verif"
-VCOPY = "/tmp/vcopy"
-EVALWT = "/tmp/mut/EVAL3"
+VCOPY = os.environ.get("SEED_VCOPY", "/tmp/vcopy")
+EVALWT = os.environ.get("SEED_EVALWT", "/tmp/mut/EVAL3")
 
 
 def sh(cmd, cwd=None, timeout=None):
